@@ -13,16 +13,11 @@ RULE = ("hp: generated element lists (0..45 elements; title sizes in 1/8 pt: equ
         "non-trivial: hp = a breadcrumb of depth>=2 and a pop; pg = duplicates and >=2 distinct pages; id = >=3 chunks one multi-page; "
         "e2e = multi-page document with a chunk spanning two pages")
 
-FID = "C15-breadcrumb-page-reset"
-
-
 def classify(case, code):
-    """known class: ONLY the breadcrumb bit (8) is set on an end-to-end case, and every mismatching
-    chunk is one whose authored breadcrumb contains a heading authored on an earlier page."""
-    if not case or case.get("ch") != "e2e":
-        return None
-    if code == 8 and case.get("cross_page_only") is True and len(case.get("pages", [])) >= 2:
-        return FID
+    """No open class.  C15-breadcrumb-page-reset (formerly: e2e case with ONLY bit 8 set and every mismatching chunk
+    governed by a heading authored on an earlier page) is FIXED by fix_breadcrumb_across_pages: a breadcrumb mismatch
+    of an authored document, across a page break or not, is a VIOLATION.  (`cross_page_only` stays in the replay
+    case as a diagnostic.)"""
     return None
 
 
